@@ -11,6 +11,10 @@ use llfree::{
 
 pub const PAGE: usize = 4096;
 
+/// Stack size of engine worker threads: a runaway recursion of the subject must hit its
+/// step budget (a verdict) before it overflows the stack (a machinery crash)
+pub const WORKER_STACK: usize = 512 << 20;
+
 pub fn geometry_name() -> String {
     format!(
         "huge_order={} tree_huge={} tree_frames={}",
